@@ -1,35 +1,130 @@
 -------------------------------- MODULE TV_Gen --------------------------------
-(* Judgement of recorded generator runs (mode `gen` of the harness) by the abstract      *)
-(* predicates: each observation carries its input (registry, settings) and what the real  *)
-(* crate produced (result kinds, projected module, projected paths, hook events).         *)
-EXTENDS RustSem, Json, IOUtils
+(* Trace validation and judgement of recorded generator runs (harness mode `gen`).  Each   *)
+(* observation carries its input (registry, settings, coincidence-freedom as evaluated on  *)
+(* the source program by MC_Gen) and what the real crate did: the hook events of the       *)
+(* generation loop, result kinds, the projected module and the projected path of every id. *)
+(* The visit events are stepped through the Visit action of Typegen.tla; at the end the    *)
+(* abstract predicates are evaluated on the implementation's output, and the output is     *)
+(* compared with the model's prediction (drift).                                           *)
+EXTENDS Typegen, Json, IOUtils
 
 Obs == ndJsonDeserialize(IOEnv.OBS)
 
-VARIABLE c
-Init == c \in 1..Len(Obs)
-Next == UNCHANGED c
-Spec == Init /\ [][Next]_c
+VARIABLES c, l, gst, rejected
+vars == <<c, l, gst, rejected>>
 
 O == Obs[c]
 Run == O.runs[1]
 In == O.input.runs[1]
 Reg == In.reg
 S == In.settings
+Evs == Run.gen.events
+HasEv == l < Len(Evs)
+
+Init == /\ c \in 1..Len(Obs)
+        /\ l = 0
+        /\ gst = GenStart(Obs[c].input.runs[1].reg, GenInit)
+        /\ rejected = FALSE
+
+Begin == /\ HasEv /\ ~rejected /\ l = 0
+         /\ Evs[1].ev = "gen_begin"
+         /\ l' = 1 /\ UNCHANGED <<c, gst, rejected>>
+
+Visit == /\ HasEv /\ ~rejected /\ l > 0
+         /\ gst.res = "running" /\ gst.i <= Len(Reg)
+         /\ LET e == Evs[l + 1]
+                vo == VisitOutcome(Reg, S, gst)
+            IN /\ e.ev = "visit"
+               /\ e.id = Reg[gst.i].id
+               /\ e.out = vo.out
+               /\ e.other = vo.other
+               /\ gst' = VisitApply(Reg, gst, vo)
+         /\ l' = l + 1 /\ UNCHANGED <<c, rejected>>
+
+Reject == /\ HasEv /\ ~rejected /\ ~ENABLED Begin /\ ~ENABLED Visit
+          /\ rejected' = TRUE /\ UNCHANGED <<c, l, gst>>
+
+Next == Begin \/ Visit \/ Reject
+Spec == Init /\ [][Next]_vars
+
+Terminal == rejected \/ ~HasEv
+
+\* after the last event: an entry whose IR construction fails returns without an event
+ModelFinal ==
+  IF gst.res = "running" /\ gst.i <= Len(Reg)
+  THEN LET vo == VisitOutcome(Reg, S, gst) IN
+       IF vo.out = "error" THEN VisitApply(Reg, gst, vo) ELSE [gst EXCEPT !.res = "trace-truncated"]
+  ELSE GenFinish(Reg, gst)
+
 Root == RootOf(Run.gen.module)
 
-\* C01: every id's named type is wire-faithful
-UnfaithfulIds == IF Run.gen.res # "ok" THEN {}
+(* ---- drift: implementation output vs model prediction ---- *)
+FieldMatches(m, o) == m.name = o.name /\ m.vis = o.vis /\ m.ty = o.ty /\ m.compact = o.compact /\ m.skip = o.skip /\ Len(o.attrs) = 0
+FieldsMatch(ms, os) == Len(ms) = Len(os) /\ \A i \in DOMAIN ms : FieldMatches(ms[i], os[i])
+ItemMatches(m, o) ==
+  /\ m.kind = o.kind /\ m.name = o.name /\ m.generics = o.generics
+  /\ m.derives = RangeOf(o.derives) /\ m.attrs = RangeOf(o.attrs)
+  /\ m.docs = o.docs /\ m.style = o.style /\ m.semi = o.semi
+  /\ FieldsMatch(m.fields, o.fields)
+  /\ Len(m.variants) = Len(o.variants)
+  /\ \A i \in DOMAIN m.variants :
+       LET mv == m.variants[i]  ov == o.variants[i] IN
+       mv.name = ov.name /\ mv.index = ov.index /\ mv.docs = ov.docs /\ mv.style = ov.style
+       /\ FieldsMatch(mv.fields, ov.fields) /\ Len(ov.attrs) = 0 /\ ~ov.disc
+ModuleDrift(mf) ==
+  LET obsItems == AllItems(Root) IN
+  \/ Len(obsItems) # Len(mf.items)
+  \/ \E k \in DOMAIN mf.items :
+       LET p == <<S.root>> \o mf.items[k].path
+           hits == {j \in DOMAIN obsItems : obsItems[j].path = p}
+       IN hits = {} \/ \E j \in hits : ~ItemMatches(mf.items[k].item, obsItems[j].it)
+PathDrift == \E id \in Ids(Reg) :
+               LET r == ResolveTypePath(Reg, S, id)  o == Run.paths[id + 1] IN
+               IF r.err = "" THEN o.res # "ok" \/ o.ty # r.ty
+               ELSE o.res # r.err \/ (r.err = "TypeNotFound" /\ o.id # r.errid)
+Drift == LET mf == ModelFinal IN
+         \/ rejected
+         \/ mf.res # Run.gen.res
+         \/ (mf.res = "ok" /\ Run.gen.parse_ok /\ ModuleDrift(mf))
+         \/ (IdsConsistent(Reg) /\ PathDrift)
+
+(* ---- abstract predicates on the implementation's output ---- *)
+GenOk == Run.gen.res = "ok"
+UnfaithfulIds == IF ~GenOk THEN {}
                  ELSE {id \in Ids(Reg) : Run.paths[id + 1].res = "ok" /\ ~FaithfulTop(Reg, S, Root, id, Run.paths[id + 1].ty)}
-PathFailures == IF Run.gen.res # "ok" THEN {} ELSE {id \in Ids(Reg) : Run.paths[id + 1].res # "ok"}
+PathFailures == IF ~GenOk THEN {} ELSE {id \in Ids(Reg) : Run.paths[id + 1].res # "ok"}
+C02_Failed == IF ~GenOk THEN {} ELSE (IF Run.gen.parse_ok THEN {} ELSE {"Parses"}) \cup RustWfFailed(S, Run.gen.module)
+HasFamily == \E p \in UserPaths(Reg) : Cardinality(IdsOfPath(Reg, p)) > 1
 
-C02_Failed == IF Run.gen.res # "ok" THEN {}
-              ELSE (IF Run.gen.parse_ok THEN {} ELSE {"Parses"}) \cup RustWfFailed(S, Run.gen.module)
+Failed ==
+  \* C01: well-formed, coincidence-free registries (cf is evaluated on the source program by the case generator)
+  (IF O.input.cf /\ UnfaithfulIds # {} THEN {"C01.Faithful"} ELSE {})
+  \cup (IF O.input.cf /\ PathFailures # {} THEN {"C01.PathResolves"} ELSE {})
+  \cup (IF O.input.cf /\ GenOk /\ ~Run.gen.parse_ok THEN {"C01.Parses"} ELSE {})
+  \* C02: every well-formed registry
+  \cup {"C02." \o x : x \in C02_Failed}
+  \* C03: same-path families, not restricted to coincidence-free ones
+  \cup (IF HasFamily /\ UnfaithfulIds # {} THEN {"C03.Faithful"} ELSE {})
+  \cup (IF HasFamily /\ Run.gen.res \notin {"ok", "DuplicateTypePath"} THEN {"C03.OkOrDuplicate"} ELSE {})
+  \* C10: fault-free well-formed input never fails except with the duplicate-path error, never panics
+  \cup (IF Run.gen.res \notin {"ok", "DuplicateTypePath"} THEN {"C10.OnlyDuplicatePath"} ELSE {})
+  \cup (IF \E id \in Ids(Reg) : Run.paths[id + 1].res = "panic" THEN {"C10.ResolveNoPanic"} ELSE {})
 
-Failed == (IF UnfaithfulIds = {} THEN {} ELSE {"C01.Faithful"})
-          \cup (IF PathFailures = {} THEN {} ELSE {"C01.PathResolves"})
-          \cup {"C02." \o x : x \in C02_Failed}
+(* ---- attribution to known findings (DESIGN.md 2.8): a failed predicate is explained by a ----
+   ---- site only if the implementation did exactly what the concrete model documents      ---- *)
+\* ids the model keeps on an occupied path although their own candidate item differs from the kept one
+BadlyKept == LET mf == ModelFinal IN
+             {g \in Ids(Reg) : IsUserPath(Ty(Reg, g).path) /\ IsNamedDef(Ty(Reg, g).def)
+                               /\ \E k \in DOMAIN mf.items : /\ mf.items[k].path = Ty(Reg, g).path /\ mf.items[k].id # g
+                                                              /\ ~CoRepItems(Reg, S, g, mf.items[k].id)}
+Known ==
+  IF Drift THEN {}
+  ELSE (IF UnfaithfulIds # {} /\ \A id \in UnfaithfulIds : Reach(Reg, id) \cap BadlyKept # {}
+        THEN {<<"C03.Faithful", "KeepFirst.CandidateItemsDiffer">>} ELSE {})
 
-Verdict == PrintT("V " \o ToJson([case |-> O.case, ok |-> Failed = {}, failed |-> Failed,
-                                  gen |-> Run.gen.res, unfaithful |-> UnfaithfulIds, pathfail |-> PathFailures]))
+Verdict == Terminal =>
+  PrintT("V " \o ToJson([case |-> O.case, failed |-> Failed, drift |-> Drift, rejected |-> rejected, at |-> l,
+                         gen |-> Run.gen.res, model |-> ModelFinal.res, unfaithful |-> UnfaithfulIds,
+                         family |-> HasFamily, cf |-> O.input.cf, known |-> Known,
+                         outs |-> {Evs[i].out : i \in {j \in DOMAIN Evs : Evs[j].ev = "visit"}}]))
 =================================================================================
